@@ -5,7 +5,7 @@ Decided structurally:
                        writer persists and the reader never reads (or vice versa) is a violation; where
                        the writer nests a scope directory inside another scope's directory, the per-file
                        read of the outer directory must be guarded by a file-type test (skip directories)
-  R2 suffix table      writer {behaviour -> suffix} = inverse of the reader's string match = spec;
+  R2 suffix table      writer {behaviour -> suffix} = inverse of the reader's extension table = spec;
                        no extension => Override; unknown / non-UTF-8 extension => entry ignored
   R3 stale removal     the per-directory writer removes the directory (guarded only by its existence)
                        before anything is created; the layer writer invokes it unconditionally for the
@@ -15,17 +15,26 @@ Decided structurally:
   R5 confinement       all mutating effects of the writer are below <layer>/{env,env.build,env.launch}
 Not decided: byte-exact file names for exotic variable names (std::path stem/extension splitting),
 "applies identically" at the value level, non-unix targets.
+
+How the obligations are stated (so that they do not depend on one spelling of the code):
+  writer side  on the interprocedural effects of write_to_layer_dir / the per-directory writer (Effects.expand with
+               substituted arguments, guards_of along the call chain): loops, try_for_each closures, private helpers and
+               `File::create(p)?.write_all(d)` are the same effects as the present `for` + `fs::write(p, d)`.
+  reader side  (rules/C03_helpers.py) the scope table on value normal forms (success payloads, iterator algebra for maps
+               collected from a pipeline, maps filled by a private helper); the per-file reads as effects with guards_of;
+               the extension table / name / value by evaluating the reader's MIR once per extension scenario
+               (`Path::extension` = None | Some(lit) | Some(unknown) | Some(non-UTF-8)) and observing what reaches the
+               delta insert — nested `match`, a private `from_extension` helper, `map_or` + `?` in a closure, `zip`,
+               `let .. else`, a lookup table are all just evaluated.  A row that cannot be evaluated is UNPROVEN.
 """
 from . import layer_env_common as L
-from .lib.effects import Effects, MUTATING
-from .lib.guards import conditions
+from . import C03_helpers as H
+from .lib.effects import Effects, MUTATING, guards_of
 from .lib.paths import strip, LayerPaths
 from .lib.value import vstr, walk
 
 SPEC_SCOPES = {'all': ('env',), 'build': ('env.build',), 'launch': ('env.launch',), 'process[*]': ('env.launch', '<key>')}
 SPEC_SUFFIX = {'Append': '.append', 'Default': '.default', 'Delimiter': '.delim', 'Override': '.override', 'Prepend': '.prepend'}
-FILE_TESTS = {'std::path::Path::is_dir': False, 'std::path::Path::is_file': True, 'std::fs::FileType::is_dir': False,
-              'std::fs::FileType::is_file': True, 'std::fs::Metadata::is_dir': False, 'std::fs::Metadata::is_file': True}
 
 
 def run(ctx, rep):
@@ -41,7 +50,7 @@ def run(ctx, rep):
     E = Effects(prog, sl)
     # ---- R1 ------------------------------------------------------------------------------------
     wf, wt, wcalls = L.writer_scope_table(prog, sl)
-    rf, rt, rdetail = L.reader_scope_table(prog, sl)
+    rf, rt, rdetail = H.reader_scope_table(prog, sl)
     rep.analysed(wf)
     rep.analysed(rf)
     wwhere = '%s:%d' % (wf.file, wf.line)
@@ -70,26 +79,22 @@ def run(ctx, rep):
             rep.violated('R1', 'extra/' + scope, wwhere, 'scope %s is not in the spec table' % scope)
     # nested directories must be skipped by the per-file reader of the outer directory
     nested = [s for s, cs in wt.items() if cs and len(cs) > 1 and any(o != s and wt[o] == cs[:-1] for o in wt)]
-    h = prog.fn(L.R_DIR)
+    # (the reads are taken as interprocedural effects of the per-directory reader: directly in its body, in a private
+    # helper or in a closure; the guards are those of every level of the call chain, boolean helpers inlined)
+    h, reads = H.per_file_reads(prog, sl, E)
     rep.analysed(h)
-    reads = [c for c in h.calls if c.is_('std::fs::read', 'std::fs::read_to_string')]
     if not reads:
         rep.unproven('R1', 'reader/per-file-read', '%s:%d' % (h.file, h.line), 'no fs::read in the per-directory reader')
-    for c in reads:
-        pv = sl.operand(h, c.args[0])
-        guards = []
-        for cd in conditions(h, c.bb, sl):
-            if cd.kind == 'bool' and cd.value[0] == 'call' and FILE_TESTS.get(cd.value[1]) == cd.outcome:
-                guards.append(cd)
+    for e, tests in reads:
         if nested:
-            rep.check(bool(guards), 'R1', 'reader/skip-directories', c.where(),
-                      'per-file read is guarded by a file-type test (%s)' % (guards and guards[0].value[1]),
+            rep.check(bool(tests), 'R1', 'reader/skip-directories', e.where(),
+                      'per-file read is guarded by a file-type test (%s)' % (tests and tests[0]),
                       'the writer creates %s inside a directory that the reader reads file by file, but the read of each entry is not '
                       'guarded by a file-type test: reading back a written per-process environment fails with EISDIR' % nested,
-                      {'nested_scopes': nested})
+                      {'nested_scopes': nested, 'via': e.via()})
     # ---- R2 ------------------------------------------------------------------------------------
     wd, ws, winfo = L.writer_suffix_table(prog, sl)
-    hd, rs, rinfo = L.reader_suffix_table(prog, sl)
+    hd, rs, rinfo = H.reader_behaviour(prog, sl)
     rep.analysed(wd)
     wdw = '%s:%d' % (wd.file, wd.line)
     rep.extra['suffix_tables'] = {'writer': ws, 'reader': {str(k): v for k, v in rs.items()}}
@@ -98,43 +103,65 @@ def run(ctx, rep):
               'ModificationBehavior variants %s differ from the spec behaviours' % variants)
     if winfo.get('suffix_pushes') != 1 or winfo.get('odd'):
         rep.unproven('R2', 'writer/shape', wdw, 'file-name construction not recognised: %s' % {k: v for k, v in winfo.items() if k != 'push_call'})
-    if rinfo.get('insert_calls') != 1 or rinfo.get('odd') or rinfo.get('error'):
-        rep.unproven('R2', 'reader/shape', '%s:%d' % (hd.file, hd.line), 'behaviour match not recognised: %s' % {k: v for k, v in rinfo.items() if k != 'insert'})
+    hdw = '%s:%d' % (hd.file, hd.line)
+    if rinfo.get('odd') or rinfo.get('error'):
+        rep.unproven('R2', 'reader/shape', hdw, 'what the reader inserts is not decided for every extension: %s'
+                     % {k: v for k, v in rinfo.items() if k in ('odd', 'error')})
+    undecided = rinfo.get('undecided', set())
+
+    def rcheck(label, ok, subject, ok_msg, bad_msg):
+        # a row the scenario evaluation could not decide is UNPROVEN under the row's own key, not a violation
+        if label in undecided or rinfo.get('error'):
+            rep.unproven('R2', subject, hdw, 'not decided: %s' % (rs.get(label),))
+        else:
+            rep.check(ok, 'R2', subject, hdw, ok_msg, bad_msg)
     for v in SPEC_SUFFIX:
         rep.check(ws.get(v) == SPEC_SUFFIX[v], 'R2', 'writer/' + v, wdw, '%s -> %s' % (v, SPEC_SUFFIX[v]),
                   'writer uses suffix %r for %s, spec says %r' % (ws.get(v), v, SPEC_SUFFIX[v]))
         key = SPEC_SUFFIX[v][1:]
-        rep.check(rs.get(key) == v, 'R2', 'reader/' + v, '%s:%d' % (hd.file, hd.line), '"%s" -> %s' % (key, v),
-                  'reader maps extension %r to %s, expected %s' % (key, rs.get(key), v))
-    rep.check(rs.get(None) == 'Override', 'R2', 'reader/no-extension', '%s:%d' % (hd.file, hd.line), 'no extension => Override',
-              'a file without extension reads as %s, the spec says override' % rs.get(None))
-    rep.check('*' in rs and rs.get('*') is None, 'R2', 'reader/unknown-extension', '%s:%d' % (hd.file, hd.line), 'unknown / non-UTF-8 extension => ignored',
-              'unknown extensions are not ignored: %s' % (rs.get('*'),))
+        rcheck(key, rs.get(key) == v, 'reader/' + v, '"%s" -> %s' % (key, v),
+               'reader maps extension %r to %s, expected %s' % (key, rs.get(key), v))
+    rcheck(None, rs.get(None) == 'Override', 'reader/no-extension', 'no extension => Override',
+           'a file without extension reads as %s, the spec says override' % (rs.get(None),))
+    rcheck('*', '*' in rs and rs.get('*') is None, 'reader/unknown-extension', 'unknown / non-UTF-8 extension => ignored',
+           'unknown extensions are not ignored: %s' % (rs.get('*'),))
+    # any further extension literal of the reader that makes it insert an entry is an undefined extension
     extra = [k for k in rs if k not in (None, '*') and ('.' + k) not in SPEC_SUFFIX.values()]
-    rep.check(not extra, 'R2', 'reader/extra', '%s:%d' % (hd.file, hd.line), 'reader accepts no further extensions', 'reader accepts undefined extensions %s' % extra)
+    rep.check(not extra, 'R2', 'reader/extra', hdw, 'reader accepts no further extensions', 'reader accepts undefined extensions %s' % extra)
     # the joined file name is <variable name> followed by <suffix>, nothing else
     pc = winfo.get('push_call')
     rep.check(winfo.get('name_parts') == ['NAME', 'SUFFIX'], 'R2', 'writer/file-name', pc.where() if pc else wdw, 'file name = variable name + suffix',
               'the env file name is built as %s, expected [NAME, SUFFIX]' % winfo.get('name_parts'))
     # ---- R3 ------------------------------------------------------------------------------------
+    # stated on the interprocedural effects of the per-directory writer (removal / creation / writes may sit in its body,
+    # in a private helper, or in a closure handed to try_for_each): each effect is located in the writer's CFG by the
+    # block of the top-level call it is reached through; its guards are those of every level of the chain
     root = L.param_pred(wd, 1)
-    rm = [c for c in wd.calls if c.is_('std::fs::remove_dir_all') and root(strip(sl.operand(wd, c.args[0])))]
+    weffs = []
+    for e in E.expand(wd, 'may'):
+        if e.kind in MUTATING and e.call is not None and not any(x.call is e.call and x.chain == e.chain for x in weffs):
+            weffs.append(e)
+    top_bb = lambda e: (e.chain[0].call if e.chain else e.call).bb
+    rm = [e for e in weffs if e.kind == 'REMOVE_TREE' and e.path is not None and root(strip(e.path))]
     if len(rm) != 1:
         rep.violated('R3', 'dir-writer/remove', wdw, 'the per-directory writer does not remove its directory (found %d remove_dir_all on the path)' % len(rm))
     else:
-        conds = [cd for cd in conditions(wd, rm[0].bb, sl) if not (cd.kind == 'variant' and cd.enum == 'std::ops::ControlFlow')]
-        only_exists = (len(conds) == 1 and conds[0].kind == 'bool' and conds[0].outcome is True and conds[0].value[0] == 'call'
-                       and conds[0].value[1] in ('std::path::Path::exists', 'std::path::Path::try_exists', 'std::path::Path::is_dir')
-                       and root(strip(conds[0].value[2][0]))) or not conds
+        gs = [g for g in guards_of(E, rm[0]) if not (g[0].kind == 'variant' and g[0].enum == 'std::ops::ControlFlow')]
+        exists = lambda val, oc: (oc is True and val[0] == 'call' and len(val[2]) == 1 and root(strip(val[2][0])) and
+                                  val[1] in ('std::path::Path::exists', 'std::path::Path::try_exists', 'std::path::Path::is_dir'))
+        only_exists = not gs or (len(gs) == 1 and gs[0][0].kind == 'bool' and any(exists(strip(val), oc) for val, oc in gs[0][1]))
         rep.check(only_exists, 'R3', 'dir-writer/remove-guard', rm[0].where(), 'removal is conditional only on the directory existing',
-                  'removal of the old directory is conditional on more than its existence: %s' % [repr(c) for c in conds])
-        sw = conds[0].sw_bb if conds else rm[0].bb
-        for c in wd.calls:
-            if c.is_('std::fs::create_dir_all', 'std::fs::create_dir', 'std::fs::write', 'std::fs::File::create'):
-                ok = wd.dominates(sw, c.bb) and c.bb not in wd.reachable(0, stop=[sw]) - {sw}
-                after = rm[0].bb not in wd.reachable(c.bb)
-                rep.check(ok and after, 'R3', 'dir-writer/order/' + c.name, c.where(), '%s happens after the removal point' % c.name.split('::')[-1],
-                          '%s can happen before the old directory is removed' % c.name)
+                  'removal of the old directory is conditional on more than its existence: %s' % [repr(g[0]) for g in gs])
+        rm_bb = top_bb(rm[0])
+        here = [g[0] for g in gs if g[0].fn is wd]
+        sw = here[0].sw_bb if here else rm_bb
+        for e in weffs:
+            if e.kind in ('MKDIR', 'WRITE'):
+                bb = top_bb(e)
+                ok = wd.dominates(sw, bb) and bb not in wd.reachable(0, stop=[sw]) - {sw}
+                after = rm_bb not in wd.reachable(bb)
+                rep.check(ok and after, 'R3', 'dir-writer/order/' + e.call.name, e.where(), '%s happens after the removal point' % e.call.name.split('::')[-1],
+                          '%s can happen before the old directory is removed' % e.call.name)
     # the per-directory writer runs on every base scope directory on every successful write (also when the new
     # delta is empty), and on env.launch before the per-process directories inside it
     md = L.writer_must_dirs(prog, sl)
@@ -151,28 +178,42 @@ def run(ctx, rep):
                   'env.launch is rewritten before the per-process directories are created inside it',
                   'per-process directories are written before env.launch is wiped and recreated')
     # ---- R4 ------------------------------------------------------------------------------------
-    for c in wd.calls:
-        if c.is_('std::fs::write'):
-            dv = strip(sl.operand(wd, c.args[1]))
-            ok = False
-            if dv[0] == 'call' and dv[1].endswith('as_bytes') and len(dv[2]) == 1:
-                coll, proj = L.loop_element(dv[2][0])
-                ok = coll is not None and L.self_field(wd, coll) == 'entries' and proj == ('1',)
-            rep.check(ok, 'R4', 'writer/data', c.where(), 'file content = as_bytes(map value), nothing else',
-                      'written bytes are not the raw value: ' + vstr(dv)[:120])
-            cs = L.comps(sl.operand(wd, c.args[0]), root)
-            rep.check(cs is not None and len(cs) == 1, 'R4', 'writer/file-path', c.where(), 'file is created directly inside the scope directory',
-                      'file path is not <dir>/<name>: ' + vstr(sl.operand(wd, c.args[0]))[:120])
-    if rinfo.get('insert') is not None:
-        ic = rinfo['insert']
-        kv = strip(sl.operand(hd, ic.args[2]))
-        vv = strip(sl.operand(hd, ic.args[3]))
-        okk = kv[0] == 'call' and kv[1] == 'std::path::Path::file_stem'
-        okv = (vv[0] == 'call' and vv[1].endswith('from_vec') and strip(vv[2][0])[0] == 'call' and strip(vv[2][0])[1] == 'std::fs::read'
-               and strip(strip(vv[2][0])[2][0]) == strip(kv[2][0]) if okk else False)
-        rep.check(okk, 'R4', 'reader/name', ic.where(), 'variable name = file stem', 'variable name is not the file stem: ' + vstr(kv)[:100])
-        rep.check(okv, 'R4', 'reader/value', ic.where(), 'value = from_vec(fs::read(same file)), unmodified',
-                  'read value is transformed: ' + vstr(vv)[:140])
+    # every file the per-directory writer can write (WRITE effects; `File::create(p)?.write_all(d)` carries d like
+    # `fs::write(p, d)`): the data is as_bytes of the map value of the entry, the path is <dir>/<name>
+    for e in weffs:
+        if e.kind != 'WRITE':
+            continue
+        dv = strip(e.args[1]) if e.args and len(e.args) > 1 else ('unknown', 'no data attached to the created file')
+        ok = False
+        if dv[0] == 'call' and dv[1].endswith('as_bytes') and len(dv[2]) == 1:
+            coll, proj = L.loop_element(dv[2][0])
+            ok = coll is not None and L.self_field(wd, coll) == 'entries' and proj == ('1',)
+        rep.check(ok, 'R4', 'writer/data', e.where(), 'file content = as_bytes(map value), nothing else',
+                  'written bytes are not the raw value: ' + vstr(dv)[:120])
+        cs = L.comps(e.path, root) if e.path is not None else None
+        if cs is None and e.path is not None:
+            cs = L.comps(sl.inline_deep(e.path), root)
+        rep.check(cs is not None and len(cs) == 1, 'R4', 'writer/file-path', e.where(), 'file is created directly inside the scope directory',
+                  'file path is not <dir>/<name>: ' + vstr(e.path)[:120])
+    # what reaches the delta insert (any scenario): name = stem of the entry's path, value = raw bytes of the same file
+    if not rinfo.get('inserts'):
+        rep.unproven('R4', 'reader/name', hdw, 'no insert into the delta is reached')
+    rows = []
+    for ic, _, kv0, vv0 in rinfo.get('inserts', ()):
+        kv = strip(kv0)
+        vv = strip(vv0)
+        okk = kv[0] == 'call' and kv[1] == 'std::path::Path::file_stem' and len(kv[2]) == 1
+        rd = strip(vv[2][0]) if (vv[0] == 'call' and vv[1].endswith('from_vec') and len(vv[2]) == 1) else None
+        okv = bool(okk and rd is not None and rd[0] == 'call' and rd[1] == 'std::fs::read' and strip(rd[2][0]) == strip(kv[2][0]))
+        rows.append((ic, okk, okv, kv, vv))
+    for ic in {r[0] for r in rows}:
+        mine = [r for r in rows if r[0] is ic]
+        badk = [r for r in mine if not r[1]]
+        badv = [r for r in mine if not r[2]]
+        rep.check(not badk, 'R4', 'reader/name', ic.where(), 'variable name = file stem',
+                  'variable name is not the file stem: ' + (H.show(badk[0][3])[:100] if badk else ''))
+        rep.check(not badv, 'R4', 'reader/value', ic.where(), 'value = from_vec(fs::read(same file)), unmodified',
+                  'read value is transformed: ' + (H.show(badv[0][4])[:140] if badv else ''))
     # ---- R5 ------------------------------------------------------------------------------------
     LP = LayerPaths(lambda v: False, lambda v: False, (L.param_pred(wf, 1),))
     n = 0
